@@ -649,8 +649,8 @@ def strategy(tier, kinds=None):
 
 
 def units(tier, seed):
-    n = 8 if tier == 'quick' else 32
-    per = 48 if tier == 'quick' else 600
+    n = 4 if tier == 'quick' else 32
+    per = 96 if tier == 'quick' else 600
     return [{'kind': 'random', 'n': per, 'seed': core.shard_seed(seed, ID, i)} for i in range(n)]
 
 
